@@ -166,7 +166,10 @@ def report_pickup_request(
     :return: a pickup request report
     """
 
-    event_sim_time = next_sim.sim_time - next_sim.sim_timestep_duration_seconds
+    # the pickup happens in the step that begins at sim_time (the clock ticks after the vehicle
+    # updates); the previous step's start can lie before the request's departure time, which
+    # wrapped the reported wait to almost 24 hours
+    event_sim_time = next_sim.sim_time
 
     geoid = vehicle.geoid
     lat, lon = h3.h3_to_geo(geoid)
